@@ -23,10 +23,27 @@ from ..nf import Rat, PointV, ExprV
 RULE = "R-FUNCSYS"
 
 
+class Bound:
+    """a method of Function taken from an object as a value (`f.gradient`), to be called later"""
+
+    def __init__(self, obj, fn):
+        self.obj, self.fn = obj, fn
+
+
 class _Interp(IndexInterp):
     MAX_STEPS = 200000
+    fcls = None
 
     def ev(self, e):
+        if isinstance(e, ast.Attribute) and self.fcls is not None and e.attr != "decomposition_dict":
+            try:
+                base0 = self.ev(e.value) if isinstance(e.value, ast.Name) and e.value.id in self.env else None
+            except AnalysisError:
+                base0 = None
+            if isinstance(base0, SymObj) and base0.kind == "Function" and e.attr not in base0.attrs:
+                m0 = self.fcls.find_method(e.attr)
+                if m0 is not None:
+                    return Bound(base0, m0)
         if isinstance(e, ast.Attribute) and e.attr == "decomposition_dict" and not isinstance(e.ctx, ast.Store):
             try:
                 base = self.ev(e.value)
@@ -86,6 +103,7 @@ class _System:
             env[ps[0]] = obj
             ps = ps[1:]
         sub = _Interp(env, on_call=self.on_call, check_asserts=True)
+        sub.fcls = self.cls
         sub.home = (self.repo, fn._module, self.cls.name)
         sub.steps = self.steps
         defaults = dict(zip(ps[len(ps) - len(a.defaults):], a.defaults))
@@ -157,9 +175,24 @@ class _System:
                 return None
             if isinstance(recv, VecObj) and nm == "get_name":
                 return None
+            if isinstance(recv, Bound):
+                return NotImplemented
             if isinstance(recv, VecObj) and nm == "get_is_leaf":
                 return len(recv.val.d) == 1 and all(not isinstance(k0, tuple) or k0[0] != "g" for k0 in recv.val.d) and \
                     all(isinstance(w0, Rat) and w0.is_number() and w0.number() == 1 for w0 in recv.val.d.values())
+        if isinstance(f, ast.Call) or (isinstance(f, ast.Name) and isinstance(it.env.get(f.id), Bound)):
+            try:
+                fv = it.ev(f)
+            except AnalysisError:
+                fv = None
+            if isinstance(fv, Bound):
+                self.steps = it.steps
+                args = it.call_args(node)
+                kws = {k.arg: it.ev(k.value) for k in node.keywords if k.arg is not None}
+                try:
+                    return self.call(fv.fn, fv.obj, args, kws, it, node)
+                finally:
+                    it.steps = self.steps
         return NotImplemented
 
     # ---------------------------------------------------------------- queries
@@ -462,7 +495,7 @@ def r_function_system(ctx):
     try:
         import multiprocessing
         mp = multiprocessing.get_context("fork")
-        with mp.Pool(min(len(jobs), os.cpu_count() or 1)) as pool:
+        with mp.Pool(max(1, min(len(jobs), int(os.environ.get("VERIF_JOBS", "0")) or (os.cpu_count() or 1)))) as pool:
             results = pool.map(_run_config, jobs, chunksize=1)
     except (ImportError, OSError, ValueError):
         results = None
